@@ -33,7 +33,8 @@ EXTENDS Naturals, FiniteSets, Sequences
 
 CONSTANTS Peers, Ported, TTL, MaxTime, Lossy,
           Async,        \* the peers that use the tokio flavour (async_discovery::ServiceDiscovery)
-          KeepLater     \* deviation (negative configuration): a re-received record keeps the later expiry
+          KeepLater,    \* deviation (negative configuration): a re-received record keeps the later expiry
+          DropUntil     \* Lossy: packets are lost only before this time (beyond MaxTime: at any time)
 
 Kinds == {"srv", "txt", "addr"}
 KindsOf(q) == IF q \in Ported THEN Kinds ELSE {"txt", "addr"}
@@ -126,7 +127,7 @@ Deliver(m) ==
                  /\ UNCHANGED <<cache, lastFrom>>
   /\ UNCHANGED <<phase, now, nextPoll, startAt, advq, byeSent>>
 
-Drop(m) == Lossy /\ m \in net /\ net' = net \ {m} /\ UNCHANGED <<phase, cache, now, nextPoll, startAt, lastFrom, advq, byeSent>>
+Drop(m) == Lossy /\ now < DropUntil /\ m \in net /\ net' = net \ {m} /\ UNCHANGED <<phase, cache, now, nextPoll, startAt, lastFrom, advq, byeSent>>
 
 Due(p) == \E q \in Peers, k \in Kinds : cache[p][q][k].exp > 0 /\ cache[p][q][k].ref < now
 
@@ -186,7 +187,45 @@ Stable ==
       /\ now >= (IF startAt[p] > startAt[q] THEN startAt[p] ELSE startAt[q]))
         => q \in Known(p)
 
+\* loss is repaired: once the network has stopped losing packets for a TTL and two poll periods, two running
+\* peers know each other.  TLC refutes it (Neg_Discovery_lostfirst.cfg): a peer whose cache is EMPTY never
+\* queries again (refresh_known_instances: get_next_refresh() = None -> sleep), nobody re-announces, and the
+\* refresh query of the peer that did hear the other is answered with the answerer's own records only -- a
+\* peer that lost the other's first announcement and the reply to its first query never discovers it
+RepairedAfterLoss ==
+  \A p \in Peers : \A q \in Others(p) :
+     (phase[p] = "on" /\ phase[q] = "on" /\ net = {} /\ advq[p] = <<>> /\ advq[q] = <<>>
+      /\ startAt[p] < DropUntil /\ startAt[q] < DropUntil
+      /\ now >= DropUntil + TTL + 2 * PollPeriod)
+        => q \in Known(p)
+
 \* a peer that has left said goodbye (holds for the sync flavour by construction of Remove; for the tokio
 \* flavour TLC finds the run in which the queued goodbye is served after the clear and nothing is sent)
 RemoveSaysGoodbye == \A p \in Peers : (phase[p] = "gone" /\ advq[p] = <<>>) => byeSent[p]
+
+-----------------------------------------------------------------------------
+\* Liveness (checked under fairness, without a state constraint: MC_DiscoveryLive.cfg).  Every packet on the
+\* wire is eventually delivered, the executor task eventually serves its queue, due polls run and time passes.
+Fairness ==
+  /\ WF_vars(\E m \in net : Deliver(m))
+  /\ \A p \in Peers : WF_vars(Advertise(p)) /\ WF_vars(Poll(p))
+  /\ WF_vars(Tick)
+LiveSpec == Spec /\ Fairness
+
+\* two running peers eventually know each other (or one of them leaves)
+EventuallyKnown ==
+  \A p \in Peers : \A q \in Others(p) :
+     (phase[p] = "on" /\ phase[q] = "on") ~> (q \in Known(p) \/ phase[p] # "on" \/ phase[q] # "on")
+\* a peer of the sync flavour that leaves is eventually forgotten by everybody else (the horizon must leave
+\* room for the second it takes) -- unless the network delivered its goodbye BEFORE an earlier announcement or
+\* reply of the same peer (the goodbye was sent but overtaken: the set `net` is unordered; TLC finds that run
+\* when the disjunct is left out)
+EventuallyForgotten ==
+  \A p \in Peers \ Async : \A q \in Others(p) :
+     (phase[p] = "gone" /\ now + 2 <= MaxTime) ~> (p \notin Known(q) \/ (byeSent[p] /\ lastFrom[q][p].kind # "bye"))
+\* the same for every flavour: refuted for the tokio flavour (Neg_DiscoveryLive_async.cfg), whose goodbye is
+\* never sent (section 11a of DESIGN.md)
+EventuallyForgottenAll ==
+  \A p \in Peers : \A q \in Others(p) :
+     (phase[p] = "gone" /\ now + 2 <= MaxTime) ~> (p \notin Known(q) \/ (byeSent[p] /\ lastFrom[q][p].kind # "bye"))
 =============================================================================
